@@ -473,6 +473,21 @@ func (cc *checkCtx) checkProperty(prop string, seed int, known []KnownFinding, b
 			cc.printf("KNOWN-FINDING: property=%s %s %s\n", prop, rec.o.Name, kf.What)
 			continue
 		}
+		// a contract of this package lost its function (rename) and this unit calls a function
+		// without contract: what failed here may only be the renamed callee's missing contract
+		if rec.u != nil && len(rec.u.uncontracted) > 0 && rec.u.Pkg != nil {
+			renamed := false
+			for _, mt := range p.MissingTargets {
+				if mt.Pkg == rec.u.Pkg.Path() {
+					renamed = true
+				}
+			}
+			if renamed {
+				undecided++
+				cc.printf("UNDECIDED property=%s obligation=%s (the unit calls a function without contract while a contract of this package has lost its target: probably a rename)\n", prop, rec.o.Name)
+				continue
+			}
+		}
 		if rec.status == "undecided" && len(base) > 0 && !base[rec.o.Name] {
 			undecided++
 			cc.printf("UNDECIDED property=%s obligation=%s (no solver decided it and it is not in the baseline of discharged obligations)\n", prop, rec.o.Name)
@@ -498,6 +513,11 @@ func (cc *checkCtx) checkProperty(prop string, seed int, known []KnownFinding, b
 		}
 	}
 	sort.Strings(missing)
+	for _, mt := range p.MissingTargets {
+		if hasTag(mt.Tags, prop) {
+			engineErrs = append(engineErrs, fmt.Sprintf("%s:%d: contract target %q not found in %s (renamed or removed: the contract file has to follow)", mt.File, mt.Line, mt.Target, mt.Pkg))
+		}
+	}
 	if cc.audit != nil && !cc.audit.OK {
 		engineErrs = append(engineErrs, "bounded audit of the assumed extern contracts failed: "+cc.audit.Output)
 	}
